@@ -320,7 +320,7 @@ theorem advanceBranch_spec (fuel : Nat) (s : VM) (f : FUid) (h : HUid) (i : Inst
     (C : OrShape cfg l u pe)
     (hgoto : cfg.elements[hd.pos + 1]! = .goto (.lit (.bool true)) l) (hlt : hd.pos + 1 < pe + 1) :
     ∃ s' i', advanceMember (fuel + 2) f h s = .ok [] s' ∧ FlowAt s' f i' x cfg ∧ s'.r = s.r ∧
-      hview i' = (hview i).map (setCore h (pe + 1) .merging) := by
+      hview i' = (hview i).map (setCore h (pe + 1) .merging) ∧ i'.status = i.status := by
   have hsz := C.hsize
   have hnm0 : NotMatchAt cfg (hd.pos + 1) := notMatchAt_of cfg (hd.pos + 1) _ (by omega) hgoto rfl
   obtain ⟨hg0, h0⟩ := setHeadPos_ok s f h i x cfg hd (hd.pos + 1) H.toFlowAt H.hh (by omega) hnm0
@@ -328,7 +328,7 @@ theorem advanceBranch_spec (fuel : Nat) (s : VM) (f : FUid) (h : HUid) (i : Inst
   obtain ⟨hg1, hg2, hsl⟩ := branch_segment_merges fuel _ f h _ x cfg _ l u pe H0 hown hact hgoto C.hl C.hsize C.hm (by simp; omega)
   have H1 := headAt_setPos _ f h _ x cfg _ (pe + 1) H0 (by simp; omega) C.hsize hg1
   have H2 := headAt_setStatus _ f h _ x cfg _ .merging H1 (by simp [hact]) (by decide) hg2
-  refine ⟨_, _, ?_, H2.toFlowAt, rfl, ?_⟩
+  refine ⟨_, _, ?_, H2.toFlowAt, rfl, ?_, rfl⟩
   · simp only [advanceMember, bind, EStateM.bind, getHead?, getIx, get, getThe, MonadStateOf.get, EStateM.get, pure, EStateM.pure,
       H.hi, Option.bind, H.hh, h0, hsl]
   · rw [hview_setStatus, hview_setPos, hview_setPos]
@@ -369,14 +369,14 @@ theorem or_group_phase1_aux (fuel : Nat) (f : FUid) (x : InstX) (cfg : FlowCfg) 
       (others.map (·.1) ++ (usPre ++ ur).map (·.1)).Nodup →
       FlowAt s f i x cfg → hview i = others ++ renderB (pe + 1) (usPre ++ ur) (pre ++ rest) →
       ∃ s' i', runMembers (fuel + 2) f (matchingB e ur rest) s = .ok () s' ∧ FlowAt s' f i' x cfg ∧ s'.r = s.r ∧
-        hview i' = others ++ renderB (pe + 1) (usPre ++ ur) (pre ++ (p1Brs e k rest).1) := by
+        hview i' = others ++ renderB (pe + 1) (usPre ++ ur) (pre ++ (p1Brs e k rest).1) ∧ i'.status = i.status := by
   intro rest
   induction rest with
   | nil =>
     intro ur pre usPre k s i hlr hlp _ _ _ F hv
     have : ur = [] := List.eq_nil_of_length_eq_zero (by simpa using hlr)
     subst this
-    refine ⟨s, i, ?_, F, rfl, ?_⟩
+    refine ⟨s, i, ?_, F, rfl, ?_, rfl⟩
     · simp [matchingB, runMembers, pure, EStateM.pure]
     · simpa [p1Brs] using hv
   | cons b r ih =>
@@ -387,13 +387,13 @@ theorem or_group_phase1_aux (fuel : Nat) (f : FUid) (x : InstX) (cfg : FlowCfg) 
       have hlr' : ur'.length = r.length := by simpa using hlr
       have skip : ∀ b' : Br, (matchingB e (u :: ur') (b :: r) = matchingB e ur' r) → ((p1Br e k b).1 = b') → b' = b → noMulti r = true →
           ∃ s' i', runMembers (fuel + 2) f (matchingB e (u :: ur') (b :: r)) s = .ok () s' ∧ FlowAt s' f i' x cfg ∧ s'.r = s.r ∧
-            hview i' = others ++ renderB (pe + 1) (usPre ++ u :: ur') (pre ++ (p1Brs e k (b :: r)).1) := by
+            hview i' = others ++ renderB (pe + 1) (usPre ++ u :: ur') (pre ++ (p1Brs e k (b :: r)).1) ∧ i'.status = i.status := by
         intro b' hm hp hb hnr
         subst hb
-        obtain ⟨s', i', hrun, F', hr', hv'⟩ := ih ur' (pre ++ [b']) (usPre ++ [u]) (k + 1) s i hlr' (by simp [hlp]) hnr
+        obtain ⟨s', i', hrun, F', hr', hv', hst'⟩ := ih ur' (pre ++ [b']) (usPre ++ [u]) (k + 1) s i hlr' (by simp [hlp]) hnr
           (by rw [← append_cons_assoc]; exact hshape) (by rw [← append_cons_assoc]; exact hnd) F
           (by rw [← append_cons_assoc, ← append_cons_assoc]; exact hv)
-        refine ⟨s', i', by rw [hm]; exact hrun, F', hr', ?_⟩
+        refine ⟨s', i', by rw [hm]; exact hrun, F', hr', ?_, hst'⟩
         rw [hv']
         simp only [p1Brs, hp, List.append_assoc, List.singleton_append]
       cases b with
@@ -413,7 +413,7 @@ theorem or_group_phase1_aux (fuel : Nat) (f : FUid) (x : InstX) (cfg : FlowCfg) 
           have hsz := C.hsize
           have H : HeadAt s f u.1 i x cfg hd :=
             { hi := F.hi, hx := F.hx, hc := F.hc, hh := hfh, hlt := by rw [hpos]; omega, hst := by rw [hstat]; decide }
-          obtain ⟨s1, i1, hadv, F1, hr1, hv1⟩ := advanceBranch_spec fuel s f u.1 i x cfg hd l mu pe H hown hstat C
+          obtain ⟨s1, i1, hadv, F1, hr1, hv1, hst1⟩ := advanceBranch_spec fuel s f u.1 i x cfg hd l mu pe H hown hstat C
             (by rw [hpos]; exact hshape_u.1) (by rw [hpos]; exact hshape_u.2)
           have hm : matchingB e (u :: ur') (Br.single a :: r) = u.1 :: matchingB e ur' r := by
             simp only [matchingB, hae, if_true]
@@ -441,10 +441,10 @@ theorem or_group_phase1_aux (fuel : Nat) (f : FUid) (x : InstX) (cfg : FlowCfg) 
             simp only [renderB] at this
             rw [this]
             rfl
-          obtain ⟨s', i', hrun, F', hr', hv'⟩ := ih ur' (pre ++ [Br.merging]) (usPre ++ [u]) (k + 1) s1 i1 hlr' (by simp [hlp]) hnr
+          obtain ⟨s', i', hrun, F', hr', hv', hst'⟩ := ih ur' (pre ++ [Br.merging]) (usPre ++ [u]) (k + 1) s1 i1 hlr' (by simp [hlp]) hnr
             (by rw [← append_cons_assoc]; exact hshape) (by rw [← append_cons_assoc]; exact hnd) F1
             (by rw [← append_cons_assoc, ← append_cons_assoc]; exact hv1')
-          refine ⟨s', i', by rw [hm, runMembers_cons _ _ _ _ _ _ _ hadv]; exact hrun, F', by rw [hr', hr1], ?_⟩
+          refine ⟨s', i', by rw [hm, runMembers_cons _ _ _ _ _ _ _ hadv]; exact hrun, F', by rw [hr', hr1], ?_, by rw [hst', hst1]⟩
           rw [hv']
           simp only [p1Brs, hp, List.append_assoc, List.singleton_append]
         · have hae' : (a == e) = false := by simpa using hae
@@ -461,7 +461,7 @@ theorem or_group_phase1 (fuel : Nat) (s : VM) (f : FUid) (i : Inst) (x : InstX) 
     (hlen : us.length = brs.length) (hnm : noMulti brs = true) (hnd : (others.map (·.1) ++ us.map (·.1)).Nodup)
     (hv : hview i = others ++ renderB (pe + 1) us brs) :
     ∃ s' i', runMembers (fuel + 2) f (matchingB e us brs) s = .ok () s' ∧ FlowAt s' f i' x cfg ∧ s'.r = s.r ∧
-      hview i' = others ++ renderB (pe + 1) us (p1Brs e 0 brs).1 := by
+      hview i' = others ++ renderB (pe + 1) us (p1Brs e 0 brs).1 ∧ i'.status = i.status := by
   have := or_group_phase1_aux fuel f x cfg l mu pe e others hown C brs us [] [] 0 s i hlen rfl hnm
     (by simpa using S) (by simpa using hnd) F (by simpa using hv)
   simpa using this
